@@ -26,6 +26,10 @@ template<class G> static inline int64_t entry_off(const G& g, typename G::iterat
  W bool empty_##P(char* p, size_t n){ return grp_##P(p, n).empty(); } \
  W uint32_t beginend_##P(char* p, size_t n, int64_t* dist){ auto g = grp_##P(p, n); using D = decltype(g.begin() - g.begin()); *dist = (int64_t)(g.end() - g.begin()); \
    return ((g.begin() + (D)g.size()) == g.end()) | ((g.begin() == g.end()) << 1); } \
+ /* iterators reached by stepping (++ from begin(), -- from end()), never through `+ n`: their ordering does not depend on difference_type */ \
+ W uint32_t cmpbe_##P(char* p, size_t n, uint32_t k1, uint32_t k2, int64_t* addr_b){ auto g = grp_##P(p, n); auto a = g.begin(); for(uint32_t t = 0; t < k1; t++) ++a; \
+   auto b = g.end(); for(uint32_t t = 0; t < k2; t++) --b; *addr_b = -1; \
+   return (a == b) | ((a != b) << 1) | ((a < b) << 2) | ((a <= b) << 3) | ((a > b) << 4) | ((a >= b) << 5) | ((b < a) << 6) | ((b <= a) << 7) | ((b > a) << 8) | ((b >= a) << 9); } \
  W int64_t at_##P(char* p, size_t n, uint64_t i){ auto g = grp_##P(p, n); return sbepp::addressof(g[(decltype(g.size()))i]) - p; } \
  W int64_t front_##P(char* p, size_t n){ return sbepp::addressof(grp_##P(p, n).front()) - p; } \
  W int64_t back_##P(char* p, size_t n){ return sbepp::addressof(grp_##P(p, n).back()) - p; } \
@@ -191,7 +195,7 @@ def wide_index_harness(u, n, b, excl_f12b=True, twin=False):
   IN(u64, i); IN(u64, j); VASSUME(i <= cnt && j <= cnt);
   SELECT(which);
   u64 smax = %(smax)s;   /* maximum of difference_type = make_signed<numInGroup type> */
-  if (which >= 2) { %(f12b)s }
+  if (which == 2 || which == 3) { %(f12b)s }
   if (which == 0) {
     VASSUME(i < cnt); i64 a = -1; CALL(a = at_%(P)s(buf, N, i));
     VASSERT(!verif_aborted, "no handler"); VASSERT(a == (i64)(data0 + i * bl), "entry i starts at data start + i x wire blockLength for EVERY index below numInGroup");
@@ -205,6 +209,14 @@ def wide_index_harness(u, n, b, excl_f12b=True, twin=False):
     i64 dist = 0; u32 c = 0; CALL(c = cmp_%(P)s(buf, N, (i64)i, (i64)j, &dist));
     VASSERT(!verif_aborted, "no handler"); VASSERT(dist == (i64)i - (i64)j, "distance of begin()+i and begin()+j is i-j for every pair of indices");
     VASSERT(c == (u32)((i == j) | ((i != j) << 1) | ((i < j) << 2) | ((i <= j) << 3) | ((i > j) << 4) | ((i >= j) << 5)), "all six comparisons agree with the index comparison");
+  } else if (which == 4) {
+    /* ordering of iterators that are far apart (begin()+k1 by ++, end()-k2 by --): decided for EVERY group size of the type, also beyond the range of difference_type */
+    IN(u32, k1); IN(u32, k2); VASSUME(k1 <= 2 && k2 <= 2 && k1 <= cnt && k2 <= cnt);
+    VASSUME(data0 + (u64)k1 * bl <= N);   /* checked builds: operator++ requires the entry it leaves to lie inside the (48-byte) buffer; operator-- has no such precondition */
+    u64 ia = k1, ib = cnt - k2; i64 ab = -1; u32 c = 0; CALL(c = cmpbe_%(P)s(buf, N, k1, k2, &ab));
+    VASSERT(!verif_aborted, "no handler");
+    VASSERT(c == (u32)((ia == ib) | ((ia != ib) << 1) | ((ia < ib) << 2) | ((ia <= ib) << 3) | ((ia > ib) << 4) | ((ia >= ib) << 5) | ((ib < ia) << 6) | ((ib <= ia) << 7) | ((ib > ia) << 8) | ((ib >= ia) << 9)),
+            "orderings of begin()+k1 and end()-k2 (reached by ++ / --) match the index comparison for every group size of the numInGroup type");
   } else VASSUME(0);
 """ % {"sb": U[b], "sn": U[n], "P": Pn, "smax": "0x%xULL" % ((1 << (8 * U[n] - 1)) - 1),
        "f12b": ("VASSUME(cnt > smax);   /* twin of open known finding F12b */" if twin else
@@ -300,10 +312,10 @@ def build(ctx):
                                             desc="twin of known finding F12b: end()-begin() for numInGroup > 127 (uint8)"))
                     if ctx.quick and (n, b) not in WIDE_QUICK: continue
                     if not ctx.quick and mode != "checked": continue
-                    for arm in range(4):
-                        hs.append(P.Harness("flat_%s_%s_wideidx%d_%s_cxx%s" % (n, b, arm, mode, std), wide_index_harness(u, n, b, excl_f12b=f12b), [u], unwind=4, backends=["z3", "minisat", "kissat"], cap=ctx.q(600, 1200),
+                    for arm in range(5):
+                        hs.append(P.Harness("flat_%s_%s_wideidx%d_%s_cxx%s" % (n, b, arm, mode, std), wide_index_harness(u, n, b, excl_f12b=f12b), [u], unwind=5, backends=["z3", "minisat", "kissat"], cap=ctx.q(600, 1200),
                                             extra_flags=["--no-standard-checks"], defines=["VERIF_WHICH=%d" % arm],
-                                            desc="flat group numInGroup=%s blockLength=%s, arm %d of {0 operator[](i), 1 back(), 2 size/begin/end, 3 distance+comparisons of (i,j)} with numInGroup and the indices over the whole type range" % (n, b, arm),
+                                            desc="flat group numInGroup=%s blockLength=%s, arm %d of {0 operator[](i), 1 back(), 2 size/begin/end, 3 distance+comparisons of (i,j), 4 orderings of stepped iterators begin()+k1 / end()-k2 for EVERY group size} with numInGroup and the indices over the whole type range" % (n, b, arm),
                                             bounds={"blockLength": "0..65535 (of %s)" % b, "numInGroup": "full %s range (<= 2^32-1)" % n, "i,j,k": "any index inside the group", "std": "c++" + std, "build": mode}))
             mixed = [(n_, b_) for n_ in U for b_ in U if n_ != b_]
             if ctx.quick: mixed = [("uint8", "uint16"), ("uint16", "uint8"), ("uint8", "uint64"), ("uint32", "uint16")]
